@@ -4,9 +4,16 @@ Every case builds a small corpus in a temporary directory under /tmp, runs the R
 entry points of `pydrobert.torch.command_line` in-process (argv lists, `--num-workers 0`),
 composes each conversion with its inverse, and compares what was written / printed with the
 Lean model of the command-level logic (file selection and naming, run-length coding, error
-accumulation, subset selection, pooled moments). The thorough tier re-runs whole pipelines
-with 0/1/3 workers and chunk sizes 1/2 in a subprocess under `timeout` and requires identical
-output files and printed figures.
+accumulation, subset selection, pooled moments, the seconds <-> frames arithmetic of the ctm /
+TextGrid commands, C02's model of `error_rate` for `--costs`).
+
+Worker counts (both tiers, in background subprocesses under `timeout`, gathered at the end):
+every command that goes through the worker pool or a DataLoader is run on the EMPTY corpus, on
+ONE utterance and on THREE, with workers in {0, 1, 2} and chunk sizes {1, 2}, and must leave the
+same output files and printed figures as the serial run, file by file. The sweep runs with the
+pool's start method substituted by `fork`; with the library's own `spawn` the empty corpus is
+run for every pipeline and a rotating sample of the others (quick) / all of them plus 7
+utterances with {0, 1, 3} workers (thorough).
 """
 import json
 import os
@@ -95,15 +102,25 @@ class C17(PropertyCheck):
             "junk files that must not be selected; kinds: alidir (ali->ref->ali), refdir (ref->ali->ref incl. "
             "non-canonical and malformed refs), trn/ctm/textgrid round trips, er (error-rate command: "
             "replace/ignore/batch size/per-utt/distances/missing), subset (every criterion x copy mode), "
-            "moments (ali/ref length moments), mvn (grouped MVN statistics); thorough adds worker runs "
-            "{0,1,3} x chunk {1,2}. non-trivial: >= 2 utterances and a non-default option; distinct by case")
+            "moments (ali/ref length moments), mvn (grouped MVN statistics); every kind includes the empty "
+            "corpus; ctm times on a millisecond or a dyadic (1/1024 s) grid; worker runs (extra_checks): "
+            "9 pipelines (ali<->token, trn, ctm, textgrid, subset, ali/ref moments, mvn, chunk) x corpora "
+            "of 0/1/3 utterances x workers {0,1,2} x chunk {1,2}, fork sweep + spawn sample; thorough adds "
+            "7 utterances x {0,1,3} x chunk {1,2} and every small spawn run. non-trivial: >= 2 utterances "
+            "and a non-default option; distinct by case")
     assumptions = [
         "multiprocessing Pool.imap_unordered / DataLoader deliver every result exactly once (trusted); the "
-        "theorems quantify over every delivery order, the thorough tier samples real pools",
+        "theorems quantify over every delivery order, both tiers sample real pools (the sweep over all "
+        "commands x 0/1/3 utterances x {1,2} workers uses the fork start method instead of the library's spawn; "
+        "spawn itself is sampled in the quick tier and swept in the thorough tier)",
         "error_rate(norm=False) on a padded batch equals its value pair by pair (C01/C02); re-checked per run by "
-        "calling it on each observed pair alone",
-        "text formats (trn/ctm/TextGrid readers and writers, transcript_to_token rounding) belong to C11; here "
-        "they are exercised inside their sound domain only (times < 10 s, default TextGrid precision, interval tiers)",
+        "calling it on each observed pair alone with the costs the command line asked for; with --costs the "
+        "oracle is C02's Lean model of error_rate evaluated on the un-padded pair (erC02)",
+        "text formats (trn/ctm/TextGrid readers and writers) belong to C11; here they are exercised inside their "
+        "sound domain only (times < 10 s, default TextGrid precision, interval tiers). The frame numbers written "
+        "by the ctm/TextGrid commands and the TextGrid files written back are compared EXACTLY with the model "
+        "(C11's toFrames / write_textgrid model composed at command level) except for entries whose float "
+        "quotient 1000*t/f lies within 1e-6 of a rounding boundary (margin rule; never on the dyadic grid)",
         "float formatting of the printed figures: compared as correctly rounded quotients of the exact model "
         "value (error rates) or to within the printed precision (moments)",
     ]
@@ -208,16 +225,21 @@ class C17(PropertyCheck):
                 "extra": extra, "swap_in": rng.random() < 0.3, "swap_out": rng.random() < 0.3,
                 "sizing": rng.choice(["skip", "feat", "default"])}
 
-    def timed_corpus(self, rng, vocab, n_utts, shift_ms, min_len_frames=0):
-        """Tokens with start/end in seconds on a millisecond grid, starts >= 1 frame apart,
-        everything below 10 s."""
+    def timed_corpus(self, rng, vocab, n_utts, shift_ms, min_len_frames=0, grid="ms"):
+        """Tokens with start/end in seconds, starts >= 1 frame apart, everything below 10 s. On
+        the grid "ms" times are whole milliseconds (decimal: inexact as floats); on the grid
+        "dyadic" they are multiples of 1/1024 s (exact as floats, and so is the frame arithmetic
+        of the code on them)."""
+        unit = 1000.0 if grid == "ms" else 1024.0
+        per_ms = unit / 1000.0
         corpus = []
         for u in rand_utts(rng, n_utts):
-            t_ms, toks = rng.randint(0, 40), []
+            t, toks = rng.randint(0, 40), []
             for _ in range(rng.choice([1, 2, 3])):
-                dur = rng.randint(max(1, int(min_len_frames * shift_ms)), int(6 * shift_ms) + 5)
-                toks.append([rng.choice(vocab), t_ms / 1000.0, (t_ms + dur) / 1000.0])
-                t_ms += max(dur, int(shift_ms) + 1) + rng.choice([0, 0, 7])
+                dur = rng.randint(max(1, int(min_len_frames * shift_ms * per_ms) + (grid != "ms")),
+                                  int(6 * shift_ms) + 5)
+                toks.append([rng.choice(vocab), t / unit, (t + dur) / unit])
+                t += max(dur, int(shift_ms * per_ms) + 2) + rng.choice([0, 0, 7])
             corpus.append([u, toks])
         return corpus
 
@@ -225,13 +247,14 @@ class C17(PropertyCheck):
         p, s = pick_affixes(rng)
         t2i = self.gen_vocab(rng)
         shift = rng.choice([10.0, 10.0, 20.0, 2.5])
-        corpus = self.timed_corpus(rng, [t for t, _ in t2i], rng.choice([0, 1, 2, 3]), shift)
+        grid = rng.choice(["ms", "dyadic"])
+        corpus = self.timed_corpus(rng, [t for t, _ in t2i], rng.choice([0, 1, 2, 3]), shift, grid=grid)
         for u, toks in corpus:
             if rng.random() < 0.15:
                 toks[-1][2] = toks[-1][1]  # zero-length token
         mapping = rng.choice(["none", "none", "wc2utt", "utt2wc", "channel"])
         return {"kind": "ctm", "prefix": p, "suffix": s, "t2i": t2i, "corpus": corpus, "shift": shift,
-                "mapping": mapping, "extra": [[j, [[t2i[0][1], 0, 1]]] for j in
+                "grid": grid, "mapping": mapping, "extra": [[j, [[t2i[0][1], 0, 1]]] for j in
                                               junk_names(rng, p, s, {p + u + s for u, _ in corpus})]}
 
     def gen_textgrid(self, rng, tier):
@@ -522,11 +545,13 @@ class C17(PropertyCheck):
             listing = {n: K.load(os.path.join(tok, n)).tolist() for n in sorted(os.listdir(tok))}
             K.call("torch_token_data_dir_to_textgrids",
                    [tok, i2t_path, tg2, "--infer"] + na + sh + tgs + ["--num-workers", "0"])
-            back = {}
+            back, text = {}, {}
             for n in sorted(os.listdir(tg2)):
                 tr, _, end = data.read_textgrid(os.path.join(tg2, n))
                 back[n] = [[t, float(a), float(b)] for t, a, b in tr]
-            return {"dir": listing, "back": back}
+                with open(os.path.join(tg2, n)) as f:
+                    text[n] = f.read().split("\n")[:-1]
+            return {"dir": listing, "back": back, "text": text}
 
     def impl_er(self, case):
         import torch
@@ -571,13 +596,17 @@ class C17(PropertyCheck):
                 argv += ["--costs"] + [str(x) for x in case["costs"]]
             seen = []
             real = mod.error_rate
+            ci, cd, cs = self.costs_of(case)
 
             def spy(ref, hyp, **kw):
                 ers = real(ref, hyp, **kw)
+                # the pair ALONE, with the costs the command line asked for (not the ones the
+                # command happened to pass on)
+                kw1 = dict(kw, ins_cost=float(ci), del_cost=float(cd), sub_cost=float(cs))
                 for b in range(ref.size(1)):
                     r, h = ref[:, b].tolist(), hyp[:, b].tolist()
                     r, h = r[: r.index(-1)], h[: h.index(-1)]
-                    alone = real(torch.tensor(r + [-1]).unsqueeze(1), torch.tensor(h + [-1]).unsqueeze(1), **kw)
+                    alone = real(torch.tensor(r + [-1]).unsqueeze(1), torch.tensor(h + [-1]).unsqueeze(1), **kw1)
                     seen.append([r, h, ers[b].item(), alone[0].item()])
                 return ers
 
@@ -735,8 +764,17 @@ class C17(PropertyCheck):
                 corpus = [[u, [t[0] for t in toks]] for u, toks in case["corpus"]]
                 extra = [[n, [x[0] for x in segs]] for n, segs in case.get("extra", [])]
                 unk = None
-            return {"op": "c17.trn", "case": {"prefix": p, "suffix": s, "t2i": case["t2i"], "unk": unk,
-                                               "corpus": corpus, "extra": extra}}
+            req = {"prefix": p, "suffix": s, "t2i": case["t2i"], "unk": unk, "corpus": corpus, "extra": extra}
+            if k == "trn":
+                return {"op": "c17.trn", "case": req}
+            # the commands with times: exact (nominal) times, the frame shift, and for TextGrids what
+            # torch-token-data-dir-to-textgrids is asked to write
+            req["shift"] = frac_str(Fraction(case["shift"]))
+            req["timed"] = [[u, [[t[0], frac_str(self.nominal(case, t[1])), frac_str(self.nominal(case, t[2]))]
+                                 for t in toks]] for u, toks in case["corpus"]]
+            req["tg"] = {"tg_suffix": case["tg_suffix"], "tier": "transcript", "precision": 3} \
+                if k == "textgrid" else None
+            return {"op": "c17.timed", "case": req}
         if k == "er":
             name = (lambda x: "t%d" % x) if case["use_map"] else str
             # the table of observed per-pair values is attached in compare() (needs the run);
@@ -747,7 +785,8 @@ class C17(PropertyCheck):
                 "replace": [[name(a), name(b)] for a, b in case["replace"]],
                 "ignore": [name(a) for a in case["ignore"]],
                 "warn": case["warn"], "distances": case["distances"], "per_utt": case["per_utt"],
-                "batch": case["batch"], "table": self._er_table(case)}}
+                "batch": case["batch"], "table": self._er_table(case),
+                "costs": [frac_str(x) for x in self.costs_of(case)] if case["costs"] else None}}
         if k == "subset":
             c = dict(case["crit"])
             if c["kind"] == "utt_list_file":
@@ -772,6 +811,16 @@ class C17(PropertyCheck):
                 files.append(["" if g is None else g[u], [[frac_str(x) for x in r] for r in rows]])
             return {"op": "c17.mvn", "case": {"dim_last": case["dim_last"], "bessel": case["bessel"], "files": files}}
         return None
+
+    @staticmethod
+    def costs_of(case):
+        """(ins, del, sub) as --costs / --nist-costs / the defaults ask for."""
+        c = case.get("costs")
+        if c == "nist":
+            return Fraction(3), Fraction(3), Fraction(4)
+        if c:
+            return tuple(Fraction(x) for x in c)
+        return Fraction(1), Fraction(1), Fraction(1)
 
     def _er_table(self, case):
         """Per-pair edit counts for non-unit costs: error_rate evaluated on each pair ALONE
@@ -934,10 +983,69 @@ class C17(PropertyCheck):
             fails.append(("trn tokens stored with segment times", None))
         return fails
 
+    # ---- times: exact frames where the float arithmetic of the code is exact or far from a boundary
+    @staticmethod
+    def nominal(case, x):
+        """The time a generated float stands for: itself on the dyadic grid, the whole
+        millisecond on the ms grid."""
+        return Fraction(x) if case.get("grid") == "dyadic" else Fraction(round(x * 1000), 1000)
+
+    def frames_exact(self, case, tok):
+        """Margin rule (DESIGN §4): the frames of an entry are compared exactly unless a float
+        rounding could move a floor across an integer — on the ms grid when 1000·start/f or
+        1000·end/f + 1/2 is (nearly) an integer; never on the dyadic grid."""
+        if case.get("grid") == "dyadic":
+            return True
+        f = Fraction(case["shift"])
+        s, e = self.nominal(case, tok[1]), self.nominal(case, tok[2])
+
+        def near_int(q):
+            return abs(q - round(q)) < Fraction(1, 10 ** 6)
+        if near_int(1000 * s / f):
+            return False
+        return s == e or not near_int(1000 * e / f + Fraction(1, 2))
+
+    def _cmp_rows(self, case, impl, model):
+        """Token tensors (id, start frame, end frame) of every file against the model's."""
+        if model.get("rows") is None:
+            return ["model: the rows cannot be written (a token without id); impl succeeded"]
+        out = []
+        p, s = case["prefix"], case["suffix"]
+        by_file = {p + u + s: toks for u, toks in case["corpus"]}
+        for n, mrows in model["rows"]:
+            toks, irows = by_file.get(n), impl["dir"].get(n)
+            if toks is None:
+                continue
+            if irows is None or len(irows) != len(mrows):
+                out.append(f"token file {n}: impl {irows} model {mrows}")
+                continue
+            for k, (tok, mr, ir) in enumerate(zip(toks, mrows, irows)):
+                if self.frames_exact(case, tok) and list(mr) != list(ir):
+                    out.append(f"token file {n} row {k} (entry {tok}, shift {case['shift']} ms): "
+                               f"impl {ir} model (id, floor(1000s/f), max(floor((1000e+f/2)/f), start+1)) {mr}")
+        return out
+
     def cmp_ctm(self, case, impl, model):
         if self._err(impl):
             return [f"command raised {impl['error']}: {impl.get('message')}"]
-        out = []
+        out = self._cmp_rows(case, impl, model)
+        if model.get("mid") is None:
+            out.append("model: the token dir cannot be read back; impl succeeded")
+        else:
+            toks_of = {u: toks for u, toks in case["corpus"]}
+            for u, mtoks in model["mid"]:
+                itoks = impl["back"].get(u, [])
+                if not mtoks and not itoks:
+                    continue
+                if len(itoks) != len(mtoks):
+                    out.append(f"ctm written for {u!r}: impl {itoks} model {mtoks}")
+                    continue
+                for tok, (mt, ma, mb), (it, ia, ib) in zip(toks_of[u], mtoks, itoks):
+                    if not self.frames_exact(case, tok):
+                        continue
+                    if mt != it or not close(float(Fraction(ma)), ia, 1e-9) or not close(float(Fraction(mb)), ib, 1e-9):
+                        out.append(f"ctm written for {u!r}: impl {[it, ia, ib]} model (frame * f / 1000) {[mt, ma, mb]}")
+        model = model["trn"]
         mdir = {n: ids for n, ids in model["dir"]}
         idir = {n: [r[0] for r in rows] for n, rows in impl["dir"].items()}
         if idir != mdir:
@@ -977,7 +1085,17 @@ class C17(PropertyCheck):
     def cmp_textgrid(self, case, impl, model):
         if self._err(impl):
             return [f"command raised {impl['error']}: {impl.get('message')}"]
-        out = []
+        out = self._cmp_rows(case, impl, model)
+        # the TextGrid files written, line by line (utterances whose frames are all exact)
+        p, tgs = case["prefix"], case["tg_suffix"]
+        exact = {p + u + tgs: all(self.frames_exact(case, t) for t in toks) for u, toks in case["corpus"]}
+        for n, lines in (model.get("grids") or []):
+            if not exact.get(n) or not isinstance(lines, list):
+                continue
+            ilines = impl.get("text", {}).get(n)
+            if ilines != lines:
+                out.append(f"TextGrid {n}: impl {ilines} model {lines}")
+        model = model["trn"]
         mdir = {n: ids for n, ids in model["dir"]}
         idir = {n: [r[0] for r in rows] for n, rows in impl["dir"].items()}
         if idir != mdir:
@@ -1030,6 +1148,9 @@ class C17(PropertyCheck):
 
     def cmp_er(self, case, impl, model):
         out = []
+        if model.get("fixed_costs") is not None and not self._er_same(case, impl, model["fixed_costs"]):
+            out.append(f"printed impl={impl.get('text', impl.get('error'))!r}, model with C02's error_rate model "
+                       f"for costs {case['costs']}: {model['fixed_costs']}")
         if not self._er_same(case, impl, model["fixed"]):
             pin = self._er_same(case, impl, model["pinned"])
             out.append(f"printed impl={impl.get('text', impl.get('error'))!r} model={model['fixed']}"
@@ -1040,7 +1161,9 @@ class C17(PropertyCheck):
         return out
 
     def pred_er(self, case, impl, model):
-        spec = model["batch1"]           # Σ edits / Σ |ref| with batch size 1 == any batch size (C17_er_total)
+        # Σ edits / Σ |ref| with batch size 1 == any batch size (C17_er_total); with --costs the edits
+        # are those of C02's model of error_rate (C17_er_total_costs), else the Levenshtein distance
+        spec = model["batch1_costs"] if model.get("batch1_costs") is not None else model["batch1"]
         refs_empty = any(len(r) == 0 for _, r, _ in model["prepped"])
         if spec["kind"] == "missing_error":
             return [] if impl.get("error") == "ValueError" else [
@@ -1210,6 +1333,12 @@ class C17(PropertyCheck):
             t += ["subset." + case["crit"]["kind"], "subset.mode=" + case["mode"]]
         if k == "moments":
             t.append("moments." + case["which"])
+        if k in ("ctm", "textgrid"):
+            t.append(f"{k}.grid=" + case.get("grid", "ms"))
+            n_ex = sum(1 for _, toks in case["corpus"] for tok in toks if self.frames_exact(case, tok))
+            n_all = sum(len(toks) for _, toks in case["corpus"])
+            if n_all:
+                t.append(f"{k}.frames_compared_exactly=" + ("all" if n_ex == n_all else "some" if n_ex else "none"))
         if k == "refdir" and isinstance(impl, dict) and "error1" in impl:
             t.append("refdir.rejected:" + impl["error1"])
         return t
